@@ -51,6 +51,7 @@ type FuncContract struct {
 	Stables  []Clause
 	Locals   []LocalDef
 	Afters   map[string][]ogAssign
+	Asserts  map[string][]Clause // call-site assertions: checked immediately before the operation with that key
 	Replay   string // replay template name
 	File     string
 	Line     int
@@ -501,6 +502,21 @@ func (cs *ContractSet) ParseContractFile(path, pkg string, trusted bool) error {
 					ld.Init = e
 				}
 				cur.Locals = append(cur.Locals, ld)
+			case "assert":
+				// assert OPKEY: [label] expr
+				i := strings.Index(rest, ":")
+				if i < 0 {
+					return fail(fmt.Errorf("assert OPKEY: [label] expr"))
+				}
+				key := strings.TrimSpace(rest[:i])
+				c, err := parseClause(rest[i+1:], path, ln.n, cur.Props)
+				if err != nil {
+					return err
+				}
+				if cur.Asserts == nil {
+					cur.Asserts = map[string][]Clause{}
+				}
+				cur.Asserts[key] = append(cur.Asserts[key], c)
 			case "after":
 				// after OPKEY: a = e1; b = e2
 				i := strings.Index(rest, ":")
